@@ -1,6 +1,7 @@
 import Glas.Model.MarkCheck
 import Glas.Gen.Parser
 import Glas.Lemmas.MarkSound
+import Glas.Lemmas.DslFuel
 import Glas.Props.C02
 import Glas.Props.C01
 /-!
@@ -66,9 +67,61 @@ theorem C02_total (toks : List Kind) :
     | leak => exact absurd rfl (hmarks.2.1 σ)
     | badProg => exact absurd rfl (hmarks.2.2 σ)
 
+/-- **the outcome does not depend on the model fuel**: any amount of fuel from `bound` on gives the outcome of
+`C02_total` (so the driver, which runs the model with a generous constant, computes *the* answer of the model) -/
+theorem C02_result_stable (toks : List Kind) (n : Nat) (hn : bound glasProg toks.length ≤ n) :
+    runMain glasProg n toks = runMain glasProg (bound glasProg toks.length) toks :=
+  Glas.Lemmas.Dsl.runMain_fuel_mono glasProg _ n toks (Glas.Props.C02.C02_terminates toks) hn
+
 /-- the parser's tokens of a text -/
 def parserToks (s : List Char) : List Kind :=
   ((lexText s).filter (fun t => !parserTrivia t.1)).map (fun t => t.1)
+
+theorem length_le_of_flatten {α} : ∀ (l : List (List α)), (∀ t ∈ l, t ≠ []) → l.length ≤ l.flatten.length
+  | [], _ => Nat.le_refl _
+  | t :: r, h => by
+    have ht : t ≠ [] := h t List.mem_cons_self
+    have hr := length_le_of_flatten r (fun x hx => h x (List.mem_cons_of_mem _ hx))
+    have : 0 < t.length := List.length_pos_iff.mpr ht
+    simp only [List.length_cons, List.flatten_cons, List.length_append]
+    omega
+
+/-- the parser sees at most as many tokens as the text has characters -/
+theorem parserToks_le (s : List Char) : (parserToks s).length ≤ s.length := by
+  obtain ⟨hflat, hne⟩ := Glas.Props.C01.lex_tiles glasRules lexErrorKind s
+  have h1 : (parserToks s).length ≤ (lexText s).length := by
+    unfold parserToks
+    rw [List.length_map]
+    exact List.length_filter_le _ _
+  have h2 := length_le_of_flatten ((lexText s).map (fun t => t.2)) (by
+    intro t ht
+    obtain ⟨x, hx, rfl⟩ := List.mem_map.mp ht
+    exact hne x hx)
+  rw [List.length_map] at h2
+  have h3 : ((lexText s).map (fun t => t.2)).flatten = s := hflat
+  rw [h3] at h2
+  omega
+
+/-- the fuel the driver uses (`modelFuel`, the bound for the number of characters) is at least the bound for the
+number of tokens … -/
+theorem modelFuel_ge_bound (s : List Char) : bound glasProg (parserToks s).length ≤ modelFuel s := by
+  have h := parserToks_le s
+  show 2 + bodyBound glasProg + (parserToks s).length * tokCost (infer glasProg) glasProg +
+      rankBound (infer glasProg) * bodyBound glasProg ≤ _
+  unfold modelFuel fuelConsts
+  simp only
+  have := Nat.mul_le_mul_right (tokCost (infer glasProg) glasProg) h
+  omega
+
+/-- … hence **what the driver computes is the model's answer**: `parseModel` with the driver's fuel is `parseModel` with
+the fuel of `C01_total` -/
+theorem driver_fuel_canonical (s : List Char) :
+    parseModel (modelFuel s) s = parseModel (bound glasProg (parserToks s).length) s := by
+  have h := C02_result_stable (parserToks s) (modelFuel s) (modelFuel_ge_bound s)
+  unfold parseModel
+  unfold parserToks at h ⊢
+  simp only
+  rw [h]
 
 /-- **C01/C02 for the whole model of `parse_module`**: for every text, with fuel linear in the number of
 tokens, the model returns a tree whose leaves are the lexer's tokens (so `C01_lossless` applies), or the
